@@ -861,6 +861,35 @@ func checkC16ArgDropped(c *Ctx) {
 			return false
 		})
 		r.Check(extra == "", "C16.unused-argument-dropped", siteKey(UP, "DropUnused", i), p.IPos(call.(ssa.Instruction)), "after every command, except with a pending vi operator", "the unused count is dropped only under an extra condition ("+extra+")")
+		// DropUnused acts only on an argument that is not active anymore: the post-command reset that
+		// clears the active flag must have run before it, or the argument still looks in use and is kept
+		readsActive := false
+		eachInstr(DU, func(in ssa.Instruction) {
+			if u, ok := in.(*ssa.UnOp); ok && isFieldLoad(u, "core.Iterations", "active") {
+				readsActive = true
+			}
+		})
+		if readsActive {
+			after := false
+			for _, cl := range allCalls(UP, false) {
+				h := staticCallee(cl)
+				if h == nil || !inRepo(h) || h == DU {
+					continue
+				}
+				clearsActive := false
+				eachInstr(h, func(in ssa.Instruction) {
+					if st, ok := isFieldStore(in, "core.Iterations", "active"); ok {
+						if b, isB := constBool(st.Val); isB && !b {
+							clearsActive = true
+						}
+					}
+				})
+				if clearsActive && instrDominates(cl.(ssa.Instruction), call.(ssa.Instruction)) {
+					after = true
+				}
+			}
+			r.Check(after, "C16.unused-argument-dropped", siteKey(UP, "DropUnused", i)+":after-reset", p.IPos(call.(ssa.Instruction)), "runs after the reset that clears the active flag it tests", "DropUnused tests the active flag of the argument, but the post-command reset that clears this flag has not run yet at this call: an argument the command ignored still looks in use and is handed to the next command (\"M-2 M-d C-y\" yanks twice)")
+		}
 	}
 	if n == 0 {
 		r.Bad("C16.unused-argument-dropped", fnName(UP)+":DropUnused", p.Pos(UP.Pos()), "the post-command hook does not drop unused arguments: \"M-3 M-d C-y\" kills one word and yanks it three times")
